@@ -147,6 +147,7 @@ CHECKS = {
 }
 
 ENGINES = [
+    dict(name="PscanInput", path="spec/PscanInput.tla", serves_properties=[], kind_free_text="EXTENSION beyond the listed properties (bin/check X01 quick|thorough, not a registered check): TLA+ spec of the Pharmacoscan probe-table input route (Sample._load_pscan), modelled on C16; mc/MC_PscanInput (+ hazard cfg), gen/PscanInputGen, trace/PscanTrace; five defects of that route recorded in known_findings.d/X01.json with proposed repairs in fixes/X01-*.diff (not applied: no listed property covers the route)"),
     dict(name="Planted", path="spec/Planted.tla", serves_properties=["C01"], kind_free_text="TLA+ planted-genotype contract over CNModel; trace/PlantedTrace (+ trace/PipelineTrace on the same runs)"),
     dict(name="BuildIndep", path="spec/BuildIndep.tla", serves_properties=["C13"], kind_free_text="TLA+ two-build transport of one abstract catalogue/evidence through the three stage models; mc/MC_BuildIndep (+ hazard and probe configs), trace/BuildTrace"),
     dict(name="History", path="spec/History.tla", serves_properties=["C14"], kind_free_text="TLA+ operation histories (purity, isolation, determinism); mc/MC_History (+ 5 hazard configs), gen/HistoryGen, trace/HistoryTrace"),
@@ -211,7 +212,7 @@ def build():
         "engines": ENGINES,
         "checks": checks,
         "not_applicable": na,
-        "notes": "Single entry point bin/check <ID> <quick|thorough|--replay path>. Known findings: known_findings.json. Design: DESIGN.md.",
+        "notes": "Single entry point bin/check <ID> <quick|thorough|--replay path>. Known findings: known_findings.json + known_findings.d/*.json. Design: DESIGN.md. Extension (not a listed property): bin/check X01 (Pharmacoscan input route).",
     }
 
 
